@@ -60,15 +60,15 @@ def _find_molv(ctx: Ctx):
 
 
 def run(ctx: Ctx):
-    _find_molv(ctx)
-    r10_1(ctx)
-    r10_2(ctx)
-    r10_3(ctx)
-    r10_4(ctx)
-    r10_5(ctx)
-    r10_6(ctx)
+    ctx.attempt("_find_molv", lambda: _find_molv(ctx))
+    ctx.attempt("R10.1", lambda: r10_1(ctx))
+    ctx.attempt("R10.2", lambda: r10_2(ctx))
+    ctx.attempt("R10.3", lambda: r10_3(ctx))
+    ctx.attempt("R10.4", lambda: r10_4(ctx))
+    ctx.attempt("R10.5", lambda: r10_5(ctx))
+    ctx.attempt("R10.6", lambda: r10_6(ctx))
     from ..util import persistent_state
-    persistent_state(ctx, "R10.7", [f_ for f_ in (ctx.repo.func(q_, required=False) for q_ in ('remove_hydrogens', 'guess_residue_restrains', 'guess_protein_restrains', '_split_list', 'Manager.parse_restrictions', 'Manager._validate_index')) if f_ is not None], "preparing the restraints")
+    ctx.attempt("R10.7", lambda: persistent_state(ctx, "R10.7", [f_ for f_ in (ctx.repo.func(q_, required=False) for q_ in ('remove_hydrogens', 'guess_residue_restrains', 'guess_protein_restrains', '_split_list', 'Manager.parse_restrictions', 'Manager._validate_index')) if f_ is not None], "preparing the restraints"))
 
 
 def _is_reversal(comp: ast.AST) -> bool:
@@ -434,7 +434,13 @@ def r10_4(ctx: Ctx, rule="R10.4"):
                                 [norm(e) for e in c.elt.elts] == ["%s + %s" % (i, of1), "%s + %s" % (j, of2)]
     shape_seen = okg and any(isinstance(l, ast.For) and norm(l.iter) == "zip(%s, %s)" % (groups[r1], groups[r2])
                              for l in walk_no_nested(gr.node))
-    if shape_seen or not okg:
+    # is the reference spelling there at all?  (splitter called on list(range(len(residue))) for both residues)
+    sp_calls = [v for v in txt.values() if isinstance(v, ast.Call) and call_name(v) == sp.name and len(v.args) == 2
+                and any(norm(v.args[0]) == "list(range(len(%s)))" % r for r in (r1, r2))]
+    if not okg and len(sp_calls) < 2:
+        ctx.ob(rule, gr, "per-residue groups", True, "the residues are not cut by %s(list(range(len(residue))), n); the pairing of groups is "
+               "not decided on this tree" % sp.name, undecided=True, node=gr.node)
+    elif shape_seen or not okg:
         ctx.ob(rule, gr, "per-residue groups", okg and comp_ok,
                "both residues are cut into min(len1, len2) groups; group k of one is paired with group k of the other "
                "(all-to-all inside), each index shifted by its own molecule's offset", node=gr.node)
@@ -525,8 +531,9 @@ def r10_5(ctx: Ctx, rule="R10.5"):
         # the unknown-name check tests membership in the complete correspondence
         okv = want <= raised
         if "KeyError" in want:
+            from ..pat import expand_single_defs as _xsd105
             kn = [n for n in walk_no_nested(g.node) if isinstance(n, ast.If) and isinstance(n.test, ast.Compare)
-                  and isinstance(n.test.ops[0], ast.NotIn) and "complete_correspondence" in norm(n.test.comparators[0])
+                  and isinstance(n.test.ops[0], ast.NotIn) and "complete_correspondence" in norm(_xsd105(g.node, n.test.comparators[0]))
                   and branch_raises(n.body)]
             okv = okv and bool(kn)
         ctx.ob(rule, g, "%s raises %s" % (g.name, sorted(raised)), okv,
@@ -555,6 +562,13 @@ def r10_6(ctx: Ctx, rule="R10.6"):
                    "(%s); re-keying not decided on this tree" % norm((odd or rebound)[0])[:60], undecided=True, node=(odd or rebound)[0])
             total += 3
             continue
+        # locals that name the complete correspondence (it is a property: read once into a local)
+        from ..pat import single_defs as _sd106
+        cc_names = {"complete_correspondence"} | {k_ for k_, v_ in _sd106(f.node).items() if "complete_correspondence" in norm(v_)}
+
+        def _is_cc(txt_):
+            import re as _re
+            return any(_re.search(r"(?<![A-Za-z0-9_])%s(?![A-Za-z0-9_])" % _re.escape(n_), txt_) for n_ in cc_names)
         # unknown names are refused: `for n in inp: if n not in <complete correspondence>: raise KeyError`
         unk = [n_ for n_ in walk_no_nested(f.node) if isinstance(n_, ast.For) and norm(n_.iter) == inp]
         oku = False
@@ -564,7 +578,7 @@ def r10_6(ctx: Ctx, rule="R10.6"):
                 if not isinstance(n_, ast.If):
                     continue
                 ct, when_t, when_f = branches(n_)
-                if ct.startswith(v + " in ") and "complete_correspondence" in ct and branch_raises(when_f) \
+                if ct.startswith(v + " in ") and _is_cc(ct) and branch_raises(when_f) \
                         and any("KeyError" in norm(x) for s_ in when_f for x in ast.walk(s_) if isinstance(x, ast.Raise)):
                     oku = True
         ctx.ob(rule, f, unk[0] if unk else "unknown-name check", oku,
@@ -581,14 +595,19 @@ def r10_6(ctx: Ctx, rule="R10.6"):
         if okn:
             rv = nb_none[-1].value
             if isinstance(rv, ast.DictComp):
-                okn = norm(rv.value) in defaults and "complete_correspondence" in norm(rv.generators[0].iter)
+                okn = norm(rv.value) in defaults and _is_cc(norm(rv.generators[0].iter))
             else:
                 okn = isinstance(rv, ast.Name)
-        ctx.ob(rule, f, nb[0] if nb else "no-dictionary branch", okn,
-               "exactly when no dictionary is given (`%s is None`) the defaults for all complete species are returned; a "
-               "given dictionary is always parsed" % inp, node=nb[0] if nb else f.node)
+        if nb and not (nb_none and isinstance(nb_none[-1], ast.Return)):
+            # one loop serves both cases (the test on None only guards the reads of the dictionary): not the modelled shape
+            ctx.ob(rule, f, nb[0], True, "the case without a dictionary does not return its own defaults (one loop serves both cases); "
+                   "not decided on this tree", undecided=True, node=nb[0])
+        else:
+            ctx.ob(rule, f, nb[0] if nb else "no-dictionary branch", okn,
+                   "exactly when no dictionary is given (`%s is None`) the defaults for all complete species are returned; a "
+                   "given dictionary is always parsed" % inp, node=nb[0] if nb else f.node)
         # the re-keying loop
-        loops = [n_ for n_ in walk_no_nested(f.node) if isinstance(n_, ast.For) and "complete_correspondence" in norm(n_.iter)
+        loops = [n_ for n_ in walk_no_nested(f.node) if isinstance(n_, ast.For) and _is_cc(norm(n_.iter))
                  and any(isinstance(x, ast.Assign) and isinstance(x.targets[0], ast.Subscript) for x in ast.walk(n_))]
         loops = [l for l in loops if not (isinstance(l.iter, ast.Name) and False)]
         if not loops:
@@ -611,9 +630,11 @@ def r10_6(ctx: Ctx, rule="R10.6"):
             stores = stores[-1:]           # the last store on the path is the entry that stays
             present = None
             pcs = cconds(p)
-            for tt, o in pcs:
-                if tt == ctext("%s in %s" % (key, inp))[0]:
-                    present = o
+            from ..cfg import conjuncts as _cj106
+            for t_raw, o_raw in p.conds():
+                for tt, o in _cj106(t_raw, o_raw):
+                    if tt == ctext("%s in %s" % (key, inp))[0]:
+                        present = o
             val = stores[0].value
             env = {norm(s_.targets[0]): s_.value for s_ in st if isinstance(s_, ast.Assign) and isinstance(s_.targets[0], ast.Name)}
             seen = set()
